@@ -148,7 +148,11 @@ def supportedRule (r : Bytes) : Bool :=
   -- '#' only as the first byte of a line (comment), no white space inside a line
   (splitOn nl r).all (fun line =>
     let l := trim line
-    l.all (fun b => !isSpaceB b) && (l.drop 1).all (fun b => b != 35))
+    match l with
+    | [] => true
+    | c :: rest =>
+      c == 33 || c == 35 ||                      -- a comment line may contain anything
+      (l.all (fun b => !isSpaceB b) && rest.all (fun b => b != 35)))
 
 /-! ### Matching -/
 
